@@ -25,7 +25,7 @@ func init() {
 	serve("C16", "G1", "G1b", "G9", "G10", "G10b", "R4")
 	serve("C17", "P1", "L2", "L3", "G11", "G20")
 	serve("C18", "L1", "L2", "L6", "L8", "P2", "R4", "G10", "G14", "G17")
-	serve("C19", "P3", "P6", "P9", "L1", "L6", "L8")
+	serve("C19", "P3", "P6", "P9", "P10", "L1", "L6", "L8")
 	serve("C20", "G2", "R4", "L2", "L3")
 }
 
